@@ -50,3 +50,85 @@ Example gcd_partial_ex :
   let f := [:: -3; -6; 1; 2]%Z in let g := [:: -4; -10; -4]%Z in
   canonb f = true /\ canonb g = true /\ resultant_gcd f g = (true, Done [:: 1; 2]%Z).
 Proof. repeat split; vm_compute; reflexivity. Qed.
+
+(** ** Second wave: the exactness flag is always true (sub-resultant structure theorem, see Props/C04.v). *)
+From RNT.Refine Require Import SubresFlag SubresSpec.
+
+(** [P] every truncating division of the run of [resultant_gcd] on canonical inputs has remainder zero. *)
+Theorem gcd_flag_true : forall (f g : seq Z),
+  canonb f = true -> canonb g = true -> fst (resultant_gcd f g) = true.
+Proof. exact SubresFlag.gcd_flag_true. Qed.
+
+(** [P] [resultant_gcd] returns a polynomial for all canonical inputs (no division by zero). *)
+Theorem gcd_total : forall (f g : seq Z),
+  canonb f = true -> canonb g = true -> exists d, resultant_gcd f g = (true, Done d).
+Proof. exact SubresSpec.gcd_total. Qed.
+
+(** [P] [gcd_spec]: for all canonical inputs with f <> 0 the result is associated over Q to gcd(f, g), is
+    canonical and has positive leading coefficient (no flag hypothesis). *)
+Theorem gcd_spec : forall (f g : seq Z),
+  canonb f = true -> canonb g = true -> f <> [::] ->
+  exists d, resultant_gcd f g = (true, Done d) /\
+    [/\ Poly d %= gcdp (Poly f) (Poly g), (0 < lead_coef (Poly d))%Z & canonb d = true].
+Proof. exact SubresSpec.gcd_spec. Qed.
+Example gcd_spec_ex :
+  let f := [:: -3; -6; 0; 0; 1; 2]%Z in let g := [:: -4; -10; -4]%Z in   (* degree gap 3 *)
+  canonb f = true /\ canonb g = true /\ resultant_gcd f g = (true, Done [:: 1; 2]%Z).
+Proof. repeat split; vm_compute; reflexivity. Qed.
+
+(** [P] [gcd_divides]: for all canonical inputs with f <> 0, the polynomial d returned divides f and g exactly
+    in Z[x] (cofactors qf, qg in Z[x]), the cofactors have no common root (coprime over Q, MathComp [coprimep])
+    and coprime contents (no integer other than +-1 divides all coefficients of both). Proved with Gauss's
+    lemma for {poly Z} (SubresGauss.gauss_dvd, transported from intdiv.zcontentsM) on top of [gcd_spec]. *)
+From RNT.Refine Require Import SubresGaussZ SubresGauss SubresGcdDiv.
+Theorem gcd_divides : forall (f g : seq Z),
+  canonb f = true -> canonb g = true -> f <> [::] ->
+  exists (d : seq Z) (qf qg : {poly Z}),
+    [/\ resultant_gcd f g = (true, Done d), Poly f = qf * Poly d, Poly g = qg * Poly d, coprimep qf qg
+      & forall e : Z, (forall i, Z.divide e qf`_i) -> (forall i, Z.divide e qg`_i) -> Z.divide e 1].
+Proof. exact SubresGcdDiv.gcd_divides. Qed.
+Example gcd_divides_ex :      (* f = 6 (x+1)(2x+1)(x-3), g = 4 (2x+1)(x^2+1): d = 2 (2x+1) *)
+  let f := [:: -18; -48; -18; 12]%Z in let g := [:: 4; 8; 4; 8]%Z in
+  canonb f = true /\ canonb g = true /\ resultant_gcd f g = (true, Done [:: 2; 4]%Z).
+Proof. repeat split; vm_compute; reflexivity. Qed.
+
+(** [P] Gauss's lemma over Z[x]: a primitive P that divides F over Q divides it in Z[x]. *)
+Theorem gauss_dvd : forall (F Q P : {poly Z}) (c : Z), c != 0 -> zprim P -> c *: F = Q * P ->
+  exists Q', F = Q' * P.
+Proof. exact SubresGauss.gauss_dvd. Qed.
+
+(** [P] [gcd_greatest]: "so every common divisor divides d": for all canonical inputs with f <> 0, every
+    h in Z[x] dividing both f and g in Z[x] divides the returned d in Z[x]. *)
+Theorem gcd_greatest : forall (f g : seq Z),
+  canonb f = true -> canonb g = true -> f <> [::] ->
+  exists d : seq Z, resultant_gcd f g = (true, Done d) /\
+    forall h : {poly Z}, (exists u, Poly f = u * h) -> (exists v, Poly g = v * h) ->
+      exists w, Poly d = w * h.
+Proof. exact SubresGcdDiv.gcd_greatest. Qed.
+
+(** [P] the abstract form: D is a greatest common divisor of F = qf D and G = qg D in Z[x] as soon as the
+    cofactors are coprime polynomials with coprime contents (the conclusion of [gcd_divides]). *)
+Theorem gcd_greatest_Z : forall (F G D qf qg h : {poly Z}),
+  D != 0 -> F = qf * D -> G = qg * D -> coprimep qf qg ->
+  (forall e : Z, (forall i, Z.divide e qf`_i) -> (forall i, Z.divide e qg`_i) -> Z.divide e 1) ->
+  (exists u, F = u * h) -> (exists v, G = v * h) -> exists w, D = w * h.
+Proof. exact SubresGauss.gcd_greatest_Z. Qed.
+
+(** ** The degree formula (SubresRank.v, SubresGcdDeg.v) *)
+From mathcomp Require Import ssrint rat matrix mxalgebra mxpoly.
+From RNT.Refine Require Import SubresRank SubresGcdDeg.
+
+(** [P] over any field the Sylvester matrix of non-zero p, q has rank deg p + deg q - deg gcd(p, q). *)
+Theorem rank_Sylvester : forall (K : fieldType) (p q : {poly K}), p != 0 -> q != 0 ->
+  \rank (Sylvester_mx p q) = ((size p).-1 + (size q).-1 - (size (gcdp p q)).-1)%N.
+Proof. exact SubresRank.rank_Sylvester. Qed.
+
+(** [P] [gcd_degree]: "its degree equals deg f + deg g minus the rank of the Sylvester matrix": for all canonical
+    non-zero inputs, with the Sylvester matrix of the inputs embedded in Q[x] ([ZtoQ z] is the rational z). *)
+Theorem gcd_degree : forall (f g : seq Z),
+  canonb f = true -> canonb g = true -> f <> [::] -> g <> [::] ->
+  exists d : seq Z, resultant_gcd f g = (true, Done d) /\
+    (size d).-1 = ((size f).-1 + (size g).-1
+                   - \rank (Sylvester_mx (map_poly ZtoQ (Poly f)) (map_poly ZtoQ (Poly g))))%N.
+Proof. exact SubresGcdDeg.gcd_degree. Qed.
+(** non-vacuity: the hypotheses are those of [gcd_divides], see [gcd_divides_ex] (there deg d = 1 = 3 + 3 - 5). *)
